@@ -240,9 +240,16 @@ func (o *oracle) onXRWrite(wr *simkube.WriteRecord) {
 // R4 after a completed revision-controller reconcile.
 func (o *oracle) afterRevReconcile(out xrh.Outcome, wasFaulted bool, pre, post []rev) {
 	w := o.w
-	if wasFaulted || out.Crashed != nil {
+	if out.Crashed != nil {
 		return
 	}
+	if wasFaulted && (out.Err != nil || out.Result.Requeue) {
+		// The reconcile failed and says so: it will be retried.
+		return
+	}
+	// A reconcile that reports completion (no error, no requeue) is "a
+	// reconcile" in the sense of R4 even when a call inside it was answered
+	// with an injected fault: nothing will retry it.
 	if out.Err != nil || out.Result.Requeue {
 		o.fail("R4/fault-free-reconcile-failed/"+o.ctx, "a reconcile without any injected fault did not complete (err=%v requeue=%v); Composition content %s, revisions before [%s] after [%s]", out.Err, out.Result.Requeue, w.current, describe(pre), describe(post))
 		return
